@@ -338,7 +338,20 @@ func (b *Body) loopKeyMatches(lp *Loop, key string) bool {
 }
 
 func (b *Body) invariantsOf(lp *Loop) []*Clause {
-	if b.ft.con == nil || b.depth > 0 && b.fn != b.ft.fn && !strings.HasPrefix(b.fn.Name(), b.ft.fn.Name()+"$") {
+	if b.ft.con == nil {
+		return nil
+	}
+	// loops of an adopted helper take the function's orphan invariants by their range key
+	if b.ft.adoptedBodies[b] {
+		var out []*Clause
+		for _, c := range b.ft.con.Invariants {
+			if b.ft.orphanKeys[strings.TrimSpace(c.Loop)] && b.loopKeyMatches(lp, c.Loop) {
+				out = append(out, c)
+			}
+		}
+		return out
+	}
+	if b.depth > 0 && b.fn != b.ft.fn && !strings.HasPrefix(b.fn.Name(), b.ft.fn.Name()+"$") {
 		return nil
 	}
 	var out []*Clause
